@@ -23,7 +23,7 @@ ClausesOf(e) ==
        \cup (IF ~e.orig_unchanged THEN {"CopyIsolated"} ELSE {})
 \* informational: a query for a parameter that the method does not declare (the property allows "further named parameters")
 \* also informational: search_method itself raised (no suggestion was returned, so the property does not speak about it)
-DivergesOf(e) == e.kind = "search_fail" \/ e.kind = "suggest" /\ e.outcome = "query" /\ ~(SetOf(e.query_other) \subseteq (SetOf(e.sig) \ SetOf(e.given)))
+DivergesOf(e) == (e.kind = "search_fail") \/ (e.kind = "suggest" /\ e.outcome = "query" /\ ~(SetOf(e.query_other) \subseteq (SetOf(e.sig) \ SetOf(e.given))))
 TNext == LET e == Trace[l] IN TStep(e.tid, ClausesOf(e), e.kind = "suggest" /\ e.outcome \in {"success", "query", "fail"}, DivergesOf(e))
 TSpec == TInit /\ [][TNext]_l
 =============================================================================
